@@ -107,6 +107,29 @@ def binop(eng, op, a, b):
         return SV(TStr, eng.fresh(TStr, 'fmt'))
     if isinstance(a, str) and isinstance(b, int) and op == 'Mult':
         return a * b
+    if isinstance(a, str) and len(a) == 1 and isinstance(b, SV) and b.ty == TInt and op == 'Mult':
+        # c * n: n copies of the character c (empty for n <= 0)
+        f = z3.Function('repeat_c', z3.IntSort(), z3.IntSort(), TCStr.sort())
+        r = f(ord(a), b.e)
+        i = z3.FreshInt('ri')
+        eng.assume(TCStr.len(r) == z3.If(b.e > 0, b.e, 0))
+        eng.assume(forall_pat([i], z3.Implies(z3.And(0 <= i, i < TCStr.len(r)), TCStr.at(r, i) == ord(a)), TCStr.at(r, i)))
+        return SV(TCStr, r)
+    if op == 'Add' and (type_of(a) == TCStr or type_of(b) == TCStr) and (isinstance(a, str) or type_of(a) == TCStr) \
+            and (isinstance(b, str) or type_of(b) == TCStr):
+        if isinstance(a, str) and a == '':
+            return b if isinstance(b, SV) else SV(TCStr, to_z3(b))
+        if isinstance(b, str) and b == '':
+            return a if isinstance(a, SV) else SV(TCStr, to_z3(a))
+        ea, eb = to_z3(a, TCStr), to_z3(b, TCStr)
+        f = z3.Function('concat_c', TCStr.sort(), TCStr.sort(), TCStr.sort())
+        r = f(ea, eb)
+        i = z3.FreshInt('ci')
+        la, lb = TCStr.len(ea), TCStr.len(eb)
+        eng.assume(TCStr.len(r) == la + lb)
+        eng.assume(forall_pat([i], z3.Implies(z3.And(0 <= i, i < la), TCStr.at(r, i) == TCStr.at(ea, i)), TCStr.at(r, i)))
+        eng.assume(z3.ForAll([i], z3.Implies(z3.And(0 <= i, i < lb), TCStr.at(r, la + i) == TCStr.at(eb, i))))
+        return SV(TCStr, r)
     ta, tb = type_of(a), type_of(b)
     if ta == TStr or tb == TStr:
         if op == 'Add':
@@ -363,6 +386,12 @@ def getattr_value(eng, v, attr):
     if isinstance(v, Obj):
         if attr in v.attrs:
             return v.attrs[attr]
+        if attr == '_replace' and 'nt_fields' in v.__dict__:
+            def repl(e, **kw):
+                o = Obj(v.cls, **dict(v.attrs, **kw))
+                o.__dict__['nt_fields'] = v.__dict__['nt_fields']
+                return o
+            return Builtin(repl, '_replace')
         k = v.__dict__.get('klass')
         if k is not None:
             m = k.lookup(attr)
@@ -801,9 +830,13 @@ def b_len(eng, x):
         e = x.s.e
         c = eng.fresh(TInt, 'nchars')
         i = z3.FreshInt('ci')
-        same = z3.ForAll([i], z3.Implies(z3.And(0 <= i, i < z3.Length(e)), z3.SubString(e, i, 1) == z3.SubString(e, 0, 1)))
-        eng.assume(z3.And(c >= 0, c <= z3.Length(e), (c == 0) == (z3.Length(e) == 0),
-                          (c == 1) == z3.And(z3.Length(e) > 0, same)))
+        if x.s.ty == TCStr:
+            n = TCStr.len(e)
+            same = z3.ForAll([i], z3.Implies(z3.And(0 <= i, i < n), TCStr.at(e, i) == TCStr.at(e, 0)))
+        else:
+            n = z3.Length(e)
+            same = z3.ForAll([i], z3.Implies(z3.And(0 <= i, i < n), z3.SubString(e, i, 1) == z3.SubString(e, 0, 1)))
+        eng.assume(z3.And(c >= 0, c <= n, (c == 0) == (n == 0), (c == 1) == z3.And(n > 0, same)))
         return SV(TInt, c)
     if isinstance(x, IterV):
         return len(x.concrete) if x.concrete is not None else eng.numval(x.n)
@@ -882,7 +915,7 @@ def b_isinstance(eng, v, t):
         if isinstance(v, float):
             return bool(names & {'float', 'Number'})
         if isinstance(v, str):
-            return 'str' in names
+            return bool(names & {'str', 'Sequence', 'Hashable'})
         if isinstance(v, tuple):
             return 'tuple' in names
         if v is None:
@@ -910,7 +943,9 @@ def b_isinstance(eng, v, t):
             inner = b_isinstance(eng, wrap(ty.t, ty.get(v.e)), t)
             return eng.And(z3.Not(ty.is_none(v.e)), inner) if 'NoneType' not in names else \
                 eng.Or(ty.is_none(v.e), inner)
-        m = {TInt: {'int', 'Integral', 'Number'}, TReal: {'float', 'Number'}, TStr: {'str'}, TBool: {'bool', 'int'}}
+        m = {TInt: {'int', 'Integral', 'Number', 'Hashable'}, TReal: {'float', 'Number', 'Hashable'},
+             TStr: {'str', 'Sequence', 'Hashable'}, TBool: {'bool', 'int', 'Integral', 'Hashable'},
+             TCStr: {'str', 'Sequence', 'Hashable'}, TChar: {'str', 'Sequence', 'Hashable'}}
         if ty in m:
             return bool(names & m[ty])
         if isinstance(ty, TSeq):
@@ -1016,8 +1051,8 @@ class CharSet:
 def b_set(eng, x=None):
     if x is None:
         return Box(None, kind='set')
-    if isinstance(x, SV) and x.ty == TStr:
-        return CharSet(x)
+    if isinstance(x, (SV, Box)) and x.ty in (TStr, TCStr):
+        return CharSet(SV(x.ty, to_z3(x)))
     it = make_iter(eng, x)
     if it.concrete is not None:
         return new_set(eng, it.concrete)
@@ -1745,5 +1780,27 @@ def install(eng):
             return (v > 0) - (v < 0)
         return e.numval(z3.If(v > 0, 1, z3.If(v < 0, -1, 0)))
     EXTERNAL_MODULES['numpy'] = ModuleV('numpy', dict(sign=Builtin(np_sign, 'numpy.sign')))
+    def namedtuple(e, name, fields):
+        names = fields.split() if isinstance(fields, str) else list(e.concrete_list(fields))
+
+        def make(e2, *args, **kw):
+            vals = dict(zip(names, args))
+            vals.update(kw)
+            o = Obj(name, **vals)
+            o.__dict__['nt_fields'] = names
+            return o
+        return Builtin(make, name)
+
+    def defaultdict(e, factory=None, *args):
+        b = Box(None, kind='dict')
+        if factory is not None:
+            b.default = lambda eng: eng.call(factory, [], {})
+        return b
+    EXTERNAL_MODULES['collections'] = ModuleV('collections', dict(namedtuple=Builtin(namedtuple, 'namedtuple'),
+                                                                  defaultdict=Builtin(defaultdict, 'defaultdict')))
+    EXTERNAL_MODULES['copy'] = ModuleV('copy', dict(copy=Builtin(lambda e, x: list_copy(e, x) if isinstance(x, (Box, SV)) else x, 'copy.copy')))
+    abc = ModuleV('collections.abc', dict(Sequence=PyType('Sequence'), Hashable=PyType('Hashable')))
+    EXTERNAL_MODULES['collections.abc'] = abc
+    EXTERNAL_MODULES['collections'].attrs['abc'] = abc
     EXTERNAL_MODULES['numbers'] = ModuleV('numbers', dict(Integral=PyType('Integral'), Number=PyType('Number'),
                                                           Real=PyType('Number')))
